@@ -68,7 +68,9 @@ def cases(draw):
             "src_dtype": sdt, "dst_dtype": ddt, "src_enc": senc,
             "dst_enc": denc, "channels": draw(st.integers(1, 2)),
             "bits": [draw(st.integers(0, 2)) for _ in range(3)],
-            "dbits": [draw(st.integers(0, 2)) for _ in range(3)],
+            "dbits": [draw(st.integers(0, 2)),
+                      draw(st.sampled_from([0, 1, 2, 6, 7])),
+                      draw(st.integers(0, 2))],
             "shard_enc": draw(st.sampled_from(["raw", "gzip"])),
             "block": [draw(st.sampled_from([1, 2, 8])) for _ in range(3)],
             "dblock": [draw(st.sampled_from([1, 2, 4, 8])) for _ in range(3)],
